@@ -67,6 +67,9 @@ def library_obligations():
     # pointwise equal
     out.append(('sum_eq.base', defs([f, g]), S(f, 0) == S(g, 0)))
     out.append(('sum_eq.step', defs([f, g]) + [S(f, k) == S(g, k), f[k] == g[k]], S(f, k + 1) == S(g, k + 1)))
+    # constant summand
+    out.append(('sum_const.base', defs([f]), S(f, 0) == c * 0))
+    out.append(('sum_const.step', defs([f]) + [S(f, k) == c * z3.ToReal(k), f[k] == c], S(f, k + 1) == c * z3.ToReal(k + 1)))
     # all zero
     out.append(('sum_zero.base', defs([f]), S(f, 0) == 0))
     out.append(('sum_zero.step', defs([f]) + [S(f, k) == 0, f[k] == 0], S(f, k + 1) == 0))
@@ -123,6 +126,10 @@ def fact(name, eng, st, args):
         g, c, f = _arr(eng, st, args[0]), args[1], _arr(eng, st, args[2])
         prem = z3.And(to_z3(eq(g.shape[0], f.shape[0])), _all(f.shape[0], lambda i: to_z3(to_real(to_num(g.at(i)))) == to_z3(to_real(c)) * to_z3(to_real(to_num(f.at(i))))))
         return prem, S(lam_of(g), to_z3(g.shape[0])) == to_z3(to_real(c)) * S(lam_of(f), to_z3(f.shape[0]))
+    if name == 'sum_const':     # sum_const(a, c): every cell equals c  ==>  SUM(a) = c * n
+        a, c = _arr(eng, st, args[0]), args[1]
+        return z3.And(to_z3(le(0, a.shape[0])), _all(a.shape[0], lambda i: to_z3(to_real(to_num(a.at(i)))) == to_z3(to_real(c)))), \
+            S(lam_of(a), to_z3(a.shape[0])) == to_z3(to_real(c)) * z3.ToReal(to_z3(a.shape[0]))
     if name == 'sum_zero':
         a = _arr(eng, st, args[0])
         return _all(a.shape[0], lambda i: to_z3(to_real(to_num(a.at(i)))) == 0), S(lam_of(a), to_z3(a.shape[0])) == 0
@@ -133,4 +140,4 @@ def fact(name, eng, st, args):
     raise OutOfSubset('unknown sum fact %s' % name)
 
 
-FACTS = ['sum_nonneg', 'sum_le', 'sum_eq', 'sum_add', 'sum_scale', 'sum_zero', 'sum_ge_term']
+FACTS = ['sum_const', 'sum_nonneg', 'sum_le', 'sum_eq', 'sum_add', 'sum_scale', 'sum_zero', 'sum_ge_term']
